@@ -143,13 +143,54 @@ pub type KMapData = Vec<(K, Vec<V>)>;
 fn mkq(items: &[V]) -> Q {
     Rc::new(RefCell::new(items.iter().copied().collect()))
 }
-/// build the map by inserting the entries in the given order
-fn mkm(entries: &KMapData) -> M {
+fn build(entries: &[&(K, Vec<V>)]) -> FxHashMap<K, VecDeque<V>> {
     let mut m: FxHashMap<K, VecDeque<V>> = FxHashMap::default();
     for (k, vs) in entries {
         m.entry(*k).or_default().extend(vs.iter().copied());
     }
-    Rc::new(RefCell::new(m))
+    m
+}
+#[expect(clippy::disallowed_methods, reason = "iteration order is exactly what is observed")]
+fn key_order(m: &FxHashMap<K, VecDeque<V>>) -> Vec<K> {
+    m.keys().copied().collect()
+}
+fn permute(n: usize, idx: &mut Vec<usize>, used: &mut Vec<bool>, f: &mut dyn FnMut(&[usize]) -> bool) -> bool {
+    if idx.len() == n {
+        return f(idx);
+    }
+    for i in 0..n {
+        if !used[i] {
+            used[i] = true;
+            idx.push(i);
+            if permute(n, idx, used, f) {
+                return true;
+            }
+            idx.pop();
+            used[i] = false;
+        }
+    }
+    false
+}
+/// Build the map so that it *iterates* in the order of `entries` when some insertion order achieves
+/// that (op lines carry the observed iteration order: this makes replaying a line reproduce the
+/// state it was recorded from); otherwise insert in the given order.
+fn mkm(entries: &KMapData) -> M {
+    let want: Vec<K> = entries.iter().map(|e| e.0).collect();
+    let direct = build(&entries.iter().collect::<Vec<_>>());
+    if key_order(&direct) == want || entries.len() > 6 {
+        return Rc::new(RefCell::new(direct));
+    }
+    let mut found = None;
+    permute(entries.len(), &mut vec![], &mut vec![false; entries.len()], &mut |p| {
+        let m = build(&p.iter().map(|i| &entries[*i]).collect::<Vec<_>>());
+        if key_order(&m) == want {
+            found = Some(m);
+            true
+        } else {
+            false
+        }
+    });
+    Rc::new(RefCell::new(found.unwrap_or(direct)))
 }
 
 #[expect(clippy::disallowed_methods, reason = "iteration order is exactly what is observed")]
